@@ -114,7 +114,7 @@ func checkC03(c *Ctx) {
 	checkDefaultInitAgreement(c, ev)
 
 	// ---- R3 Go side
-	checkParamFlags(c, gen)
+	checkParamFlags(c, "C03.R3.flags", gen)
 	checkExtensionGetters(c, "C03.R3.extension-values", gen)
 	checkFormatNormalisation(c, "C03.R3.format-normalisation", gen)
 
@@ -221,8 +221,7 @@ func innermostIsNotArray(gs []tmpl.Guard) bool {
 }
 
 // checkParamFlags: Go-side computation of the flags read by the binder templates.
-func checkParamFlags(c *Ctx, gen *packages.Package) {
-	rule := "C03.R3.flags"
+func checkParamFlags(c *Ctx, rule string, gen *packages.Package) {
 	c.Rule(rule, "the parameter view-model flags read by the binder are computed from the spec as the Swagger 2.0 semantics prescribe", 20)
 	info := gen.TypesInfo
 	// location predicates
